@@ -14,6 +14,22 @@ CLAIMED = {
         "float<->double conversions and int->float are the model's integer-arithmetic implementations validated against struct.pack; CPython primitives trusted",
    tech="Lean 4 proof of model round trip + generated-table obligations + model/implementation correspondence"),
 }
+CLAIMED["C02"] = dict(cat="proof", ref="DESIGN.md §5 C02, §12",
+   text="Lean theorems c02_bytes / c02_encodeLong_eq_spec / c02_little_endian: for every schema and conforming datum the bytes write_data emits equal "
+        "Spec.encode, an encoder written from the specification (arithmetic zig-zag/varint, LE IEEE-754, length prefixes, one counted block + terminator, "
+        "fields in order, index+value), for the branches the writer selected; the implementation's bytes are compared byte for byte with Spec.encode on "
+        "generated cases and exhaustive per-primitive boundary tables.",
+   note="model==implementation observed by correspondence, not proved; branch *selection* is property C09; float rounding is the model's integer implementation "
+        "validated against struct.pack; CPython primitives trusted",
+   tech="Lean 4 proof model-writer = spec-encoder + independent spec encoder run against the implementation's bytes")
+CLAIMED["C03"] = dict(cat="proof", ref="DESIGN.md §5 C03, §12",
+   text="Lean theorems c03_accept / c03_skip (mutual induction over the relation Spec.Enc: every partition of arrays/maps into blocks, positive and "
+        "negative-count+size forms, any nesting, is decoded to the encoded value / skipped exactly), c03_read_extend + c03_prefix (no proper prefix of a "
+        "valid encoding decodes), c03_bad_index (negative or too-large union/enum index is an error when reading and skipping). Implementation is run on "
+        "re-blocked encodings, every out-of-range index (with and without reader schema) and every proper prefix.",
+   note="model==implementation observed by correspondence; the spec-side re-blocking encoder in the harness is trusted glue but is itself checked against the "
+        "proven model on every case (a disagreement is a machinery error, not a violation)",
+   tech="Lean 4 proof over an inductive spec relation + correspondence on re-blocked encodings, bad indices, prefixes")
 PENDING = {}
 
 def main():
